@@ -223,23 +223,23 @@ Section Main.
     destruct (vm_entry _ _ _ _ _ _ K D Nx Ni) as [E [Dv M]].
     assert (Gx : good x = true) by (apply GK; apply (nth_error_In _ _ Nx)).
     assert (Gm : allgood good (map fst (vm_build eqb ks insts))) by (rewrite M; exact GK).
-    unfold y_at. rewrite (dict_get_eq leb eqb good OK _ _ _ _ Gm Gx Dv E (eqb_refl _ _ _ OK x Gx)). reflexivity.
+    unfold y_at. rewrite (dict_get_eq leb eqb good OK _ _ _ _ Gm Dv E (eqb_refl _ _ _ OK x Gx)). reflexivity.
   Qed.
 
   (* ---------- known points ---------- *)
   Lemma known_point assign insts q qv v ks i inst k :
-    num_of ofZ qv = Some v -> keys_of q insts = Some ks -> allgood good ks -> good v = true -> distinct eqb ks ->
+    num_of ofZ qv = Some v -> keys_of q insts = Some ks -> allgood good ks -> distinct eqb ks ->
     nth_error insts i = Some inst -> abscissa ofZ q inst = Some k -> eqb k v = true ->
     interp_at leb eqb ofZ interp mk assign insts q qv = OSame i.
   Proof.
-    intros Hv K GK Gv D Ni A E. unfold interp_at. fold (keys_of q insts). rewrite Hv, K.
+    intros Hv K GK D Ni A E. unfold interp_at. fold (keys_of q insts). rewrite Hv, K.
     assert (Nk : nth_error ks i = Some k).
     { unfold keys_of in K. apply all_some_spec in K.
       assert (X : nth_error (map Some ks) i = Some (Some k)) by (rewrite <- K, <- A; apply map_nth_error; exact Ni).
       apply nth_error_map_inv in X. destruct X as [x [Nx Ex]]. inversion Ex. subst. exact Nx. }
     destruct (vm_entry _ _ _ _ _ _ K D Nk Ni) as [En [Dv M]].
     assert (Gm : allgood good (map fst (vm_build eqb ks insts))) by (rewrite M; exact GK).
-    rewrite (dict_get_eq leb eqb good OK _ _ _ _ Gm Gv Dv En E). reflexivity.
+    rewrite (dict_get_eq leb eqb good OK _ _ _ _ Gm Dv En E). reflexivity.
   Qed.
 
   Lemma same_sound assign insts q qv i :
@@ -419,12 +419,11 @@ Section Main.
     forall t, In t insts -> wf t = true /\ is_obj t /\ fpaths t = F.
 
   Lemma order_free_same assign insts insts' q qv ks i :
-    Permutation insts insts' -> keys_of q insts = Some ks -> allgood good ks ->
-    (forall v, num_of ofZ qv = Some v -> good v = true) -> distinct eqb ks ->
+    Permutation insts insts' -> keys_of q insts = Some ks -> allgood good ks -> distinct eqb ks ->
     interp_at leb eqb ofZ interp mk assign insts q qv = OSame i ->
     exists j, interp_at leb eqb ofZ interp mk assign insts' q qv = OSame j /\ nth_error insts' j = nth_error insts i.
   Proof.
-    intros P K GK GQ D H. destruct (same_sound _ _ _ _ _ H ks K D) as [v [inst [k [Hv [Ni [A E]]]]]].
+    intros P K GK D H. destruct (same_sound _ _ _ _ _ H ks K D) as [v [inst [k [Hv [Ni [A E]]]]]].
     destruct (keys_of_perm _ _ _ _ K P) as [ks' [K' Pk]].
     destruct (In_nth_error _ _ (Permutation_in _ P (nth_error_In _ _ Ni))) as [j Nj].
     exists j. split; [|rewrite Ni; exact Nj].
@@ -434,13 +433,12 @@ Section Main.
   Qed.
 
   Lemma order_free_new assign insts insts' q qv ks F r :
-    Permutation insts insts' -> keys_of q insts = Some ks -> allgood good ks ->
-    (forall v, num_of ofZ qv = Some v -> good v = true) -> distinct eqb ks -> same_shape F insts ->
+    Permutation insts insts' -> keys_of q insts = Some ks -> allgood good ks -> distinct eqb ks -> same_shape F insts ->
     interp_at leb eqb ofZ interp mk assign insts q qv = ONew r ->
     exists r', interp_at leb eqb ofZ interp mk assign insts' q qv = ONew r' /\
                forall p, In p F -> get p r' = get p r.
   Proof.
-    intros P K GK GQ D Sh H.
+    intros P K GK D Sh H.
     destruct (interp_at_new _ _ _ _ _ H) as [v [ks0 [template [rest [Hv [K0 [E [Dg [r0 [Fo Fin]]]]]]]]]].
     rewrite K in K0. inversion K0. subst ks0. clear K0.
     destruct (keys_of_perm _ _ _ _ K P) as [ks' [K' Pk]].
@@ -456,7 +454,7 @@ Section Main.
       destruct (eqb k v) eqn:Ek; [|reflexivity]. exfalso.
       apply (Permutation_in _ (Permutation_sym Pk)) in Ik. destruct (In_nth_error _ _ Ik) as [i Nk].
       destruct (keys_of_nth _ _ _ _ _ K Nk) as [inst [Ni A]].
-      pose proof (known_point assign insts q qv v ks i inst k Hv K GK (GQ v Hv) D Ni A Ek) as X. rewrite X in H. discriminate. }
+      pose proof (known_point assign insts q qv v ks i inst k Hv K GK D Ni A Ek) as X. rewrite X in H. discriminate. }
     (* the same values are computed for every float path *)
     set (val := leaf_value eqb ofZ interp (vm_build eqb ks insts) (sort_keys leb (map fst (vm_build eqb ks insts))) v) in *.
     set (val' := leaf_value eqb ofZ interp (vm_build eqb ks' (template' :: rest'))
@@ -498,8 +496,7 @@ Section Main.
   Qed.
 
   Theorem order_free assign insts insts' q qv ks F :
-    Permutation insts insts' -> keys_of q insts = Some ks -> allgood good ks ->
-    (forall v, num_of ofZ qv = Some v -> good v = true) -> distinct eqb ks -> same_shape F insts ->
+    Permutation insts insts' -> keys_of q insts = Some ks -> allgood good ks -> distinct eqb ks -> same_shape F insts ->
     match interp_at leb eqb ofZ interp mk assign insts q qv, interp_at leb eqb ofZ interp mk assign insts' q qv with
     | OSame i, OSame j => nth_error insts' j = nth_error insts i /\ nth_error insts i <> None
     | ONew r, ONew r' => forall p, In p F -> get p r' = get p r
@@ -507,18 +504,18 @@ Section Main.
     | _, _ => False
     end.
   Proof.
-    intros P K GK GQ D Sh.
+    intros P K GK D Sh.
     destruct (keys_of_perm _ _ _ _ K P) as [ks' [K' Pk]].
     pose proof (distinct_perm eqb _ _ D Pk) as D'.
     pose proof (allgood_perm good _ _ GK (Permutation_sym Pk)) as GK'.
     assert (Sh' : same_shape F insts') by (intros t It; apply Sh; apply (Permutation_in _ (Permutation_sym P)); exact It).
     destruct (interp_at leb eqb ofZ interp mk assign insts q qv) as [i|r|] eqn:H.
-    - destruct (order_free_same _ _ _ _ _ _ _ P K GK GQ D H) as [j [H' N]]. rewrite H'. split; [exact N|].
+    - destruct (order_free_same _ _ _ _ _ _ _ P K GK D H) as [j [H' N]]. rewrite H'. split; [exact N|].
       destruct (same_sound _ _ _ _ _ H ks K D) as [v [inst [k [_ [Ni _]]]]]. rewrite Ni. discriminate.
-    - destruct (order_free_new _ _ _ _ _ _ _ _ P K GK GQ D Sh H) as [r' [H' L]]. rewrite H'. exact L.
+    - destruct (order_free_new _ _ _ _ _ _ _ _ P K GK D Sh H) as [r' [H' L]]. rewrite H'. exact L.
     - destruct (interp_at leb eqb ofZ interp mk assign insts' q qv) as [j|r'|] eqn:H'; [| |exact I].
-      + destruct (order_free_same _ _ _ _ _ _ _ (Permutation_sym P) K' GK' GQ D' H') as [i [X _]]. rewrite X in H. discriminate.
-      + destruct (order_free_new _ _ _ _ _ _ _ _ (Permutation_sym P) K' GK' GQ D' Sh' H') as [r [X _]]. rewrite X in H. discriminate.
+      + destruct (order_free_same _ _ _ _ _ _ _ (Permutation_sym P) K' GK' D' H') as [i [X _]]. rewrite X in H. discriminate.
+      + destruct (order_free_new _ _ _ _ _ _ _ _ (Permutation_sym P) K' GK' D' Sh' H') as [r [X _]]. rewrite X in H. discriminate.
   Qed.
   (* ---------- definedness: a query on a well-formed series never raises ---------- *)
   Lemma all_some_length {A} (l : list (option A)) r : all_some l = Some r -> List.length r = List.length l.
